@@ -309,9 +309,20 @@ Definition event (nconn : nat) (s : state) (e : sx) : option state :=
         match args with
         | [SN k] =>
             let k := small k in
-            match rq s k with
-            | O => go s [LSilence k; LReconnectEnter k; LReconnectDone k]   (* nobody asked: the silence rule *)
-            | _ => go s [LReconnectEnter k; LReconnectDone k]
+            match loops s k, rq s k with
+            | S _, _ => go s [LReconnectDone k]                               (* the loop is already running *)
+            | O, O => go s [LSilence k; LReconnectEnter k; LReconnectDone k]   (* nobody asked: the silence rule *)
+            | O, _ => go s [LReconnectEnter k; LReconnectDone k]
+            end
+        | _ => None
+        end
+      else if is "dialfail" then          (* the server turned an attempt of the loop away *)
+        match args with
+        | [SN k] =>
+            let k := small k in
+            match loops s k with
+            | S _ => go s [LReconnectFail k]
+            | O => go s [LReconnectEnter k; LReconnectFail k]
             end
         | _ => None
         end
